@@ -400,7 +400,18 @@ func c20Gen(t *rapid.T) c20Case {
 				}
 			}
 			reg = nr
-			kind := rapid.SampledFrom([]string{"smaller", "larger", "abc", "signed", "empty", "overflow", "zeros", "hex", "space"}).Draw(t, "clk")
+			kind := rapid.SampledFrom([]string{"smaller", "larger", "abc", "signed", "empty", "overflow", "zeros", "hex", "space", "trailer-override", "trailer-override"}).Draw(t, "clk")
+			if kind == "trailer-override" {
+				// the declared length is wrong and a content-length in the trailers states the right one: the
+				// request is malformed all the same (its content-length header field differs from the DATA octets)
+				if c.BodyLen == 0 {
+					kind = "larger"
+				} else {
+					c.Trailers = append(c.Trailers, genFieldSpec(t, "content-length", strconv.Itoa(c.BodyLen)))
+					muts = append(muts, "cl-in-trailer")
+					kind = rapid.SampledFrom([]string{"smaller", "larger"}).Draw(t, "clk2")
+				}
+			}
 			var v string
 			switch kind {
 			case "smaller":
